@@ -68,6 +68,8 @@ impl ImmutContext<'_> {
 impl UnnormalizedMachineBuilder<'_> {
     fn build(mut self) -> UnnormalizedMachine {
         while let Some(state_index) = self.queue.pop_front() {
+            #[cfg(feature = "kiki_verif")]
+            crate::verif_hooks::tick(crate::verif_hooks::SITE_MACHINE_WORKLIST);
             self.enqueue_transition_targets(state_index);
         }
         UnnormalizedMachine {
@@ -218,6 +220,8 @@ impl ImmutContext<'_> {
         let mut items = Oset::new();
 
         while let Some(next) = queue.pop_front() {
+            #[cfg(feature = "kiki_verif")]
+            crate::verif_hooks::tick(crate::verif_hooks::SITE_CLOSURE);
             if items.contains(&next) {
                 continue;
             }
